@@ -3,7 +3,7 @@ import json, os, threading
 from verifkit import read_lines, VERIF
 
 REQUIRED = ["DaeVerif.C17.Props." + n for n in [
-    "tokens_iff_tree", "parse_spells", "lexer_reads_back", "parse_render",
+    "tokens_iff_tree", "parse_spells", "lexer_accounts_for_every_character", "lexer_reads_back", "parse_render",
     "parse_render_canonical", "wfCheck_establishes_WF", "skips_whitespace", "skips_line_comment", "skips_block_comment", "skips_concat",
     "walk_keeps_every_item", "walkFn_faithful",
     "merge_order", "relative_includes_resolve_against_entry_dir", "merge_into_appends", "circular_include_rejected", "include_of_visited_rejected",
@@ -11,7 +11,7 @@ REQUIRED = ["DaeVerif.C17.Props." + n for n in [
     "unknown_section_rejected", "missing_required_section_rejected", "unknown_and_missing_keys_rejected",
     "unknown_key_rejected_one_struct", "missing_required_key_rejected_one_struct", "written_list_replaces_default", "defaults_applied", "defaults_applied_scalar", "defaults_applied_any_depth",
     "default_routing_fallback_applied", "default_http_method_applied",
-    "oversize_domain_set_rejected", "compiled_within_limit",
+    "oversize_rejected", "oversize_domain_set_rejected", "compiled_within_limit",
 ]]
 
 PARSE_SHARDS, CONFIG_SHARDS, COMPILE_SHARDS = 4, 2, 2
